@@ -68,7 +68,7 @@ func c18Body(c c18cfg, controlled bool) func(w *World) {
 			return
 		}
 		w.RolloutDeploy("s1", []string{"ra:80"})
-		w.RolloutSet("s1", 0, []string{"v"})
+		w.RolloutSet("s1", 50, []string{"v"})
 		if c.pre == "paused" {
 			w.Pause("s1", vD, 2500*time.Millisecond)
 		}
@@ -97,6 +97,10 @@ func c18Body(c c18cfg, controlled bool) func(w *World) {
 		case "plain+cookie":
 			spawn("client", func() { w.Do(ReqSpec{ID: "c-plain", Host: host}) })
 			spawn("client", func() { w.Do(ReqSpec{ID: "c-cookie", Host: host, Cookie: "kamal-rollout=v"}) })
+		case "cookie+cookie":
+			// two opted-in clients whose values are decided by the percentage (not the allowlist)
+			spawn("client", func() { w.Do(ReqSpec{ID: "c-ck1", Host: host, Cookie: "kamal-rollout=user-1"}) })
+			spawn("client", func() { w.Do(ReqSpec{ID: "c-ck2", Host: host, Cookie: "kamal-rollout=user-2"}) })
 		case "upgrade+plain":
 			spawn("client", func() { w.Do(ReqSpec{ID: "c-plain", Host: host, Plan: "delay=300ms"}) })
 		case "slow":
@@ -147,7 +151,7 @@ func c18Configs(tier string) []c18cfg {
 			if j < i {
 				continue
 			}
-			for k, cl := range []string{"plain+cookie", "upgrade+plain", "slow"} {
+			for k, cl := range []string{"plain+cookie", "upgrade+plain", "slow", "cookie+cookie"} {
 				if tier == "quick" && (i+j+k)%3 != 0 {
 					continue
 				}
@@ -236,7 +240,7 @@ func checkC18(t *testing.T, job *Job, res *Result) {
 		res.Gen = &GenStats{Evaluations: 1}
 		return
 	}
-	res.Rule = "engine S: every unordered pair of {deploy, redeploy with other hosts/paths, rollout deploy/set/stop, pause, stop, resume, remove, list, deploy of another service, conflicting deploy} running concurrently on a service with active+rollout targets and a split, with client threads {plain+cookie, established upgrade + slow request, slow + POST}, from running and paused; every schedule within the bounds; monitored: panic in any thread (incl. unlock of an unlocked mutex), deadlock (no thread enabled, none can be woken), hang (command or request unfinished at the horizon); engine H: every command (succeeding and failing) in every state reached by histories up to the depth bound; the data-race clause is covered by a separate free-running -race pass reported under race_pass (not exhaustive)"
+	res.Rule = "engine S: every unordered pair of {deploy, redeploy with other hosts/paths, rollout deploy/set/stop, pause, stop, resume, remove, list, deploy of another service, conflicting deploy} running concurrently on a service with active+rollout targets and a split, with client threads {plain+cookie, established upgrade + slow request, slow + POST, two percentage-decided cookie requests}, from running and paused; every schedule within the bounds; monitored: panic in any thread (incl. unlock of an unlocked mutex), deadlock (no thread enabled, none can be woken), hang (command or request unfinished at the horizon); engine H: every command (succeeding and failing) in every state reached by histories up to the depth bound; the data-race clause is covered by a separate free-running -race pass reported under race_pass (not exhaustive)"
 	if job.Replay == nil || job.Replay.Engine == "S" {
 		var scs []*Scenario
 		for i, c := range c18Configs(tier) {
